@@ -100,6 +100,23 @@ class _InlineMixin:
         finally:
             self._depth -= 1
 
+    def index(self, base, idx, e):
+        r = super().index(base, idx, e)
+        if r is not NotImplemented:
+            return r
+        if isinstance(base, tuple) and base and base[0] == "struct":
+            # `value[idx]` on a struct of the crate: its `impl Index<..>`
+            meth, free, consts = _index(self.ctx)
+            c = [x for x in meth.get((base[1], "index"), []) if lastseg(strip_generics((x.get("trait") or "").replace(" ", ""))) == "Index"]
+            if len(c) == 1:
+                saved = getattr(self, "self_ty", None)
+                self.self_ty = base[1]
+                try:
+                    return self.inline(c[0], [idx], base)
+                finally:
+                    self.self_ty = saved
+        return NotImplemented
+
     def convert_from(self, src, v):
         """`v.into()` where exactly one `impl From<src> for Dst` exists in the crate: its `from` evaluated on v"""
         meth, free, consts = _index(self.ctx)
